@@ -134,6 +134,8 @@ type vTransport struct {
 	packetCh chan *Packet
 	streamCh chan net.Conn
 	order    []string // "write" / "shutdown" sequence
+	attempts []Address
+	onWrite  func(b []byte, a Address)
 }
 
 func (t *vTransport) FinalAdvertiseAddr(ip string, port int) (net.IP, int, error) {
@@ -143,6 +145,10 @@ func (t *vTransport) WriteTo(b []byte, addr string) (time.Time, error) {
 	return t.WriteToAddress(b, Address{Addr: addr})
 }
 func (t *vTransport) WriteToAddress(b []byte, a Address) (time.Time, error) {
+	t.attempts = append(t.attempts, a)
+	if t.onWrite != nil {
+		t.onWrite(b, a)
+	}
 	if t.writeErr {
 		return time.Time{}, vErr{}
 	}
